@@ -16,10 +16,14 @@ CONSTANTS Cand,            \* candidate instance OIDs
           PinFirstOrder,   \* first request in the caller's order            (fixed: 2237bfc)
           PinCollapse,     \* bulk fetcher goes through the OID-keyed dict  (fixed: f0f5ba3)
           PinNoProgress,   \* no per-root progress check                    (fixed: 96a183d)
-          PinFirstUnguarded \* first fetch outside the try block            (fixed: 2237bfc)
+          PinFirstUnguarded, \* first fetch outside the try block            (fixed: 2237bfc)
+          ExchangeFaults,  \* how one request/response exchange of the walk may fail besides what the agent's OIDs say:
+                           \*   "noSuchName" (the agent's error-status 2: the documented end of a walk), "genErr" (any other error-status),
+                           \*   "foreignId" (InvalidResponseId), "usmReject" (a response the security model refuses); {"none"} switches this off
+          PinLenientSwallowsAll  \* errors="warn" catches every SnmpError instead of FaultySNMPImplementation only (seeded C08-m4 / C09-m9)
 
-VARIABLES ag, roots, bulk, errors, pc, nextFetches, contFrom, yielded, nreq, outcome, asked, reask, revealed
-vars == <<ag, roots, bulk, errors, pc, nextFetches, contFrom, yielded, nreq, outcome, asked, reask, revealed>>
+VARIABLES ag, roots, bulk, errors, pc, nextFetches, contFrom, yielded, nreq, outcome, asked, reask, revealed, hit
+vars == <<ag, roots, bulk, errors, pc, nextFetches, contFrom, yielded, nreq, outcome, asked, reask, revealed, hit>>
 
 RootLists == { r \in UNION { [1..k -> RootCand] : k \in 1..MaxRoots } : PairwiseDisjoint(r) }
 Univ == Cand \cup RootCand
@@ -29,7 +33,7 @@ Init == /\ IF Faulty THEN \E F \in [Univ -> FaultyRange \cup {EOMVTOK}] : ag = F
         /\ roots \in RootLists /\ bulk \in BulkSizes /\ errors \in ErrorModes
         /\ pc = "fetch" /\ nextFetches = (IF PinFirstOrder THEN roots ELSE SortOids(roots))
         /\ contFrom = <<>> /\ yielded = <<>> /\ nreq = 0 /\ outcome = "running"
-        /\ asked = {} /\ reask = FALSE /\ revealed = {}
+        /\ asked = {} /\ reask = FALSE /\ revealed = {} /\ hit = "none"
 
 \* one fetch = the set of possible results (agent's truncation choice for GETBULK)
 Fetch(oids) ==
@@ -68,10 +72,20 @@ Round ==
                        /\ nextFetches' = [i \in DOMAIN unf |-> unf[i][2]]
                        /\ IF unf = <<>> THEN pc' = "done" /\ outcome' = "ok"
                                         ELSE pc' = "fetch" /\ outcome' = outcome
-  /\ UNCHANGED <<ag, roots, bulk, errors>>
+  /\ UNCHANGED <<ag, roots, bulk, errors, hit>>
+
+\* an exchange of the walk fails: multiwalk's handlers are `except NoSuchOID: break` (end of the walk) and
+\* `except FaultySNMPImplementation` (lenient mode ends the walk); everything else leaves the walk as it is
+RoundFault ==
+  /\ pc = "fetch" /\ hit = "none"
+  /\ \E x \in ExchangeFaults \ {"none"} :
+       /\ hit' = x /\ nreq' = nreq + 1 /\ pc' = "done"
+       /\ outcome' = IF x = "noSuchName" THEN "ok"
+                     ELSE IF PinLenientSwallowsAll /\ errors = "warn" /\ ~(PinFirstUnguarded /\ nreq = 0) THEN "ok" ELSE x
+  /\ UNCHANGED <<ag, roots, bulk, errors, nextFetches, contFrom, yielded, asked, reask, revealed>>
 
 Done == pc = "done" /\ UNCHANGED vars
-Next == Round \/ Done
+Next == Round \/ RoundFault \/ Done
 Spec == Init /\ [][Next]_vars /\ WF_vars(Round)
 
 \* ------------------------------------------------------------ properties
@@ -92,4 +106,7 @@ NreqCap   == nreq <= Cardinality(Univ) + 4                \* CONSTRAINT: makes a
 NoReask   == ~reask
 OutcomeMode == (outcome = "faulty" => errors = "strict") /\ (~Faulty => outcome # "faulty")
 Terminates == <>(pc = "done")
+\* C07 / C08 / C09 at the level of the walk: lenient mode forgives OIDs that do not increase - nothing else; only noSuchName ends a walk quietly
+ErrorsPropagate == (pc = "done" /\ hit \notin {"none", "noSuchName"}) => outcome = hit
+NoSuchNameEndsWalk == (pc = "done" /\ hit = "noSuchName") => outcome = "ok"
 ====
